@@ -35,9 +35,12 @@ var c13Patterns = []interface{}{
 	M{"a": M{"b": []interface{}{1.0}}},
 	"1",
 	M{"k": "true"},
+	M{"g": []interface{}{[]interface{}{"r", M{"x": "?x"}}}},
+	[]interface{}{[]interface{}{M{"a": M{"b": "?y"}}}, M{"c": []interface{}{M{"d": 1.0}}}},
 }
 
-var c13Msgs = []interface{}{M{"a": 1.0}, M{"a": M{"b": []interface{}{1.0, 2.0}}}, []interface{}{1.0, 2.0}, 7.0, true, "s", "t", 1.0, "1", M{"k": "true"}, M{"k": true}}
+var c13Msgs = []interface{}{M{"a": 1.0}, M{"a": M{"b": []interface{}{1.0, 2.0}}}, []interface{}{1.0, 2.0}, 7.0, true, "s", "t", 1.0, "1", M{"k": "true"}, M{"k": true},
+	M{"g": []interface{}{[]interface{}{"r", M{"x": 5.0}}, []interface{}{"q"}}}, []interface{}{[]interface{}{M{"a": M{"b": 2.0}}}, M{"c": []interface{}{M{"d": 1.0}}}}}
 
 func c13Abstract(cs c13Case) *rstep.ASpec {
 	b2 := rstep.ABranch{Pattern: c13Patterns[cs.P2], Target: "n2"}
@@ -218,7 +221,7 @@ func c13Behaviour(cs c13Case, maxLen int) (trace string, note string, err error)
 }
 
 func patShape(i int) string {
-	return []string{"map-var", "map-const", "array", "number", "bool", "bare-string", "bare-variable", "nested", "numeric-looking-string", "map-with-keyword-string"}[i]
+	return []string{"map-var", "map-const", "array", "number", "bool", "bare-string", "bare-variable", "nested", "numeric-looking-string", "map-with-keyword-string", "array-in-array-in-map", "maps-in-nested-arrays"}[i]
 }
 
 // C13: representation independence and idempotent compilation.
@@ -263,7 +266,7 @@ func C13(c *vh.Ctx) {
 		return
 	}
 	c.Bound("message_sequence_max", maxLen)
-	c.Rule("specs = (first pattern, second pattern) over 10 JSON shapes (map with variable, map constant, array, number, bool, bare string, bare variable, nested, numeric-looking string, keyword-looking string) x flavour {plain, guarded, throwing action + ActionErrorNode, + ActionErrorBranches}; each rendered as Go structures / JSON / YAML via jsccast / YAML via yaml.v2 x pattern syntax {inline, json text} x compile variant {once, twice forced, twice unforced, compile-serialise-reload-compile}; behaviour = full tree of walks over all message sequences up to the bound over 11 messages, compared with the Go-structure/inline/once rendering; plus 4 unknown-interpreter/branch-type/pattern-syntax variants per representation that must fail to compile. non-trivial = every case (each is a distinct rendering).")
+	c.Rule("specs = (first pattern, second pattern) over 12 JSON shapes (map with variable, map constant, array, number, bool, bare string, bare variable, nested, numeric-looking string, keyword-looking string, array in array in map, maps inside nested arrays) x flavour {plain, guarded, throwing action + ActionErrorNode, + ActionErrorBranches}; each rendered as Go structures / JSON / YAML via jsccast / YAML via yaml.v2 x pattern syntax {inline, json text} x compile variant {once, twice forced, twice unforced, compile-serialise-reload-compile}; behaviour = full tree of walks over all message sequences up to the bound over 13 messages, compared with the Go-structure/inline/once rendering; plus 4 unknown-interpreter/branch-type/pattern-syntax variants per representation that must fail to compile. non-trivial = every case (each is a distinct rendering).")
 	reps := []string{"go", "json", "yaml-jsccast", "yaml-v2"}
 	var idx uint64
 	for p1 := range c13Patterns {
